@@ -420,9 +420,9 @@ class SecondaryService(Service):
     This attribute has a type UUID of 0x2801.
     """
 
-    def __init__(self, uuid, handle: int = 0):
+    def __init__(self, uuid, handle: int = 0, end_handle: int = 0):
         """Initialize a secondary service identified by UUID `uuid`,"""
-        super().__init__( UUID(0x2801), uuid, handle=handle)
+        super().__init__( UUID(0x2801), uuid, handle=handle, end_handle=end_handle)
 
     @classmethod
     def _build(cls, instance):
